@@ -124,6 +124,17 @@ fn wait_until(what: &str, mut done: impl FnMut() -> bool) {
 }
 
 
+static SUM_LOADS: std::sync::atomic::AtomicUsize = std::sync::atomic::AtomicUsize::new(0);
+struct Sum(i32);
+impl assets_manager::Compound for Sum {
+    fn load(cache: assets_manager::AnyCache, _id: &assets_manager::SharedString) -> Result<Self, BoxedError> {
+        SUM_LOADS.fetch_add(1, std::sync::atomic::Ordering::SeqCst);
+        let p = cache.load::<Num>("p")?.read().0;
+        let q = cache.load::<Num>("q")?.read().0;
+        Ok(Sum(p + q))
+    }
+}
+
 fn wait_for(mut done: impl FnMut() -> bool) -> bool {
     let start = Instant::now();
     while !done() {
@@ -178,6 +189,20 @@ fn main() {
     if mem.reads("b") != 3 { bad.push(format!("static mode: `b.x` read {} times (load + two reloads expected)", mem.reads("b"))); }
     if mem.reads("a") != 2 || a.last_reload_id() != id_a { bad.push("static mode: `a` was reloaded again although `a.x` was notified once and already applied".into()); }
     if mem.reads("c") != 2 { bad.push("static mode: `c` was reloaded again without a notification".into()); }
+
+    // static mode: one batch naming two entries of one asset = one pass: the asset is rebuilt once, from the whole batch
+    mem.set("p", "x", 1);
+    mem.set("q", "x", 10);
+    let sum = cache.load::<Sum>("sum").unwrap();
+    let loads0 = SUM_LOADS.load(std::sync::atomic::Ordering::SeqCst);
+    mem.set("p", "x", 2);
+    mem.set("q", "x", 20);
+    mem.0.sender.lock().unwrap().as_ref().unwrap()
+        .send_multiple([OwnedDirEntry::File("p".into(), "x".into()), OwnedDirEntry::File("q".into(), "x".into())]).unwrap();
+    if !wait_for(|| sum.read().0 == 22) { bad.push("static mode: a batch of two notified entries was not applied".into()); }
+    std::thread::sleep(Duration::from_millis(200));
+    let loads = SUM_LOADS.load(std::sync::atomic::Ordering::SeqCst) - loads0;
+    if loads != 1 { bad.push(format!("static mode: one batch naming two entries of `sum` rebuilt it {} times (one pass per batch expected)", loads)); }
 
     // static mode: hot_reload() returns and changes nothing (update_if_local must idle, the request is answered)
     let (ra, rb, rc) = (mem.reads("a"), mem.reads("b"), mem.reads("c"));
